@@ -281,7 +281,7 @@ func (s *Server) blobUploadPost(repoStr string) http.HandlerFunc {
 					_, err = io.Copy(digester.Hash(), r.Body)
 					if err != nil || digester.Digest() != d {
 						w.WriteHeader(http.StatusBadRequest)
-						_ = types.ErrRespJSON(w, types.ErrInfoBlobUploadInvalid("digest mismatch"))
+						_ = types.ErrRespJSON(w, types.ErrInfoDigestInvalid("digest mismatch"))
 						s.log.Debug("failed to verify blob digest", "repo", repoStr, "digest", d.String(), "err", err)
 						return
 					}
@@ -322,7 +322,7 @@ func (s *Server) blobUploadPost(repoStr string) http.HandlerFunc {
 			if err != nil {
 				_ = bc.Cancel()
 				w.WriteHeader(http.StatusBadRequest)
-				_ = types.ErrRespJSON(w, types.ErrInfoBlobUploadInvalid("digest mismatch"))
+				_ = types.ErrRespJSON(w, types.ErrInfoDigestInvalid("digest mismatch"))
 				s.log.Debug("failed to verify blob digest", "repo", repoStr, "digest", d.String(), "err", err)
 				return
 			}
@@ -633,7 +633,7 @@ func (s *Server) blobUploadPut(repoStr, sessionID string) http.HandlerFunc {
 				s.log.Error("canceling upload", "err", err, "repo", repoStr, "sessionID", sessionID, "expected", bc.Digest().String(), "received", d.String(), "size", bc.Size())
 			}
 			w.WriteHeader(http.StatusBadRequest)
-			_ = types.ErrRespJSON(w, types.ErrInfoBlobUploadInvalid("invalid digest, expected: "+bc.Digest().String()))
+			_ = types.ErrRespJSON(w, types.ErrInfoDigestInvalid("invalid digest, expected: "+bc.Digest().String()))
 			return
 		}
 		err = s.blobClose(r.Context(), repoStr, bc)
